@@ -89,20 +89,45 @@ pub fn canned_info() -> get_info::Response {
 pub fn canned_mc() -> make_credential::Response {
     let mut r = make_credential::ResponseBuilder { fmt: ctap2::AttestationStatementFormat::Packed, auth_data: bytes(0x11, 37) }.build();
     r.ep_att = Some(true);
+    r.large_blob_key = Some(ctap_types::ByteArray::new([0x12; 32]));
+    r.att_stmt = Some(ctap2::AttestationStatement::None(ctap2::NoneAttestationStatement {}));
     r
 }
 pub fn canned_ga(tag: u8) -> get_assertion::Response {
+    // every optional member set: a dispatcher that edits the handler's response is visible
     let cred = ctap_types::webauthn::PublicKeyCredentialDescriptor { id: bytes(tag, 16), key_type: ctap_types::String::from("public-key") };
-    get_assertion::ResponseBuilder { credential: cred, auth_data: bytes(tag, 37), signature: bytes(tag, 70) }.build()
+    let mut r = get_assertion::ResponseBuilder { credential: cred, auth_data: bytes(tag, 37), signature: bytes(tag, 70) }.build();
+    let mut user = ctap_types::webauthn::PublicKeyCredentialUserEntity::from(bytes(tag, 8));
+    user.name = Some(ctap_types::String::from("user"));
+    user.display_name = Some(ctap_types::String::from("User"));
+    user.icon = Some(ctap_types::String::from("icon"));
+    r.user = Some(user);
+    r.number_of_credentials = Some(tag as u32);
+    r.user_selected = Some(true);
+    r.large_blob_key = Some(ctap_types::ByteArray::new([tag; 32]));
+    r.ep_att = Some(true);
+    r.att_stmt = Some(ctap2::AttestationStatement::Packed(ctap2::PackedAttestationStatement { alg: -7, sig: bytes(tag, 70), x5c: None }));
+    r.unsigned_extension_outputs = Some(cbor_smol::cbor_deserialize(&[0xa0]).unwrap());
+    r
 }
 pub fn canned_cp() -> client_pin::Response {
     let mut r = client_pin::Response::default();
     r.retries = Some(6);
+    r.uv_retries = Some(5);
+    r.power_cycle_state = Some(true);
+    r.pin_token = Some(bytes(0x13, 32));
+    r.key_agreement = Some(cosey::EcdhEsHkdf256PublicKey { x: bytes(0x14, 32), y: bytes(0x15, 32) });
     r
 }
 pub fn canned_cm() -> credential_management::Response {
     let mut r = credential_management::Response::default();
     r.total_rps = Some(7);
+    r.existing_resident_credentials_count = Some(1);
+    r.max_possible_remaining_residential_credentials_count = Some(2);
+    r.total_credentials = Some(3);
+    r.rp_id_hash = Some(ctap_types::ByteArray::new([0x16; 32]));
+    r.large_blob_key = Some(ctap_types::ByteArray::new([0x17; 32]));
+    r.cred_protect = Some(credential_management::CredentialProtectionPolicy::Required);
     r
 }
 pub fn canned_lb() -> large_blobs::Response {
@@ -225,6 +250,18 @@ pub fn alphabet() -> Alphabet {
             let r = ctap2::Request::deserialize(msg).unwrap_or_else(|e| machinery_panic(&format!("C10: anchor for 0x{:02x} does not decode: {:?}", b, e)));
             c2.push((format!("0x{:02x}:{}", b, label), r));
         }
+    }
+    {
+        // LargeBlobs with fragment sizes / offsets beyond the feature-dependent fragment constant
+        use crate::refcbor::V;
+        let big = V::M(vec![(V::U(2), V::B(vec![0x77; 3100])), (V::U(3), V::U(0)), (V::U(4), V::U(3100))]);
+        let mut msg = vec![0x0c];
+        msg.extend(encode(&big));
+        c2.push(("0x0c:set 3100 bytes".to_string(), ctap2::Request::deserialize(leak(msg)).unwrap()));
+        let get = V::M(vec![(V::U(1), V::U(70000)), (V::U(3), V::U(u32::MAX as u64))]);
+        let mut msg = vec![0x0c];
+        msg.extend(encode(&get));
+        c2.push(("0x0c:get 70000".to_string(), ctap2::Request::deserialize(leak(msg)).unwrap()));
     }
     for b in [0x04u8, 0x07, 0x08, 0x0b] {
         c2.push((format!("0x{:02x}", b), ctap2::Request::deserialize(leak(vec![b])).unwrap()));
